@@ -22,6 +22,25 @@ Deliberately dumb: no knowledge of what the helpers are supposed to do.  Whiteli
 Anything else yields a message starting with 'ERROR' and the helper is emitted with the body
 `Unsupported` (for which the Coq checker answers false), so the theorem about that helper
 stops compiling and the dynamic part of the check still runs.
+
+Besides the helpers, one `Life.nsclass` per helper class describes everything that decides what
+`self.namespace` evaluates to during the life of an object (coq/Forward/Life.v):
+
+* `k_ctor`: the `self.<a> = <e>` statements of `__init__`, `super().__init__(...)` inlined;
+* `k_plain`: `namespace` is a plain instance attribute - no class of the MRO binds that name at
+  class level (property, descriptor, method, class attribute), defines `__getattr__`,
+  `__getattribute__`, `__setattr__`, `__delattr__`, `__slots__`, is decorated or has a metaclass;
+  no method of those classes stores into `self.namespace` outside `__init__`; nothing in the whole
+  package stores into `<anything but self>.namespace`, calls setattr/delattr/vars or touches
+  `__dict__`;
+* `k_attach`: the attribute writes of `_set_server` / `_set_client`;
+* `k_register`, `k_key`: what `register_namespace` writes to the object and the key it files it under;
+* `k_dispatch`: every attribute store (other than to the server/client itself) in the dispatch
+  path `_trigger_event`, `_get_event_handler`, `_get_namespace_handler` (server / client side)
+  and `trigger_event` (namespace side); a call in those functions outside a small whitelist is
+  an ERROR as well (it could write to the object).
+Whatever cannot be described becomes an ERROR message plus a description the Coq checker
+rejects (`k_plain = false` or a `WUnsupported` write into `namespace`).
 """
 import ast
 import hashlib
@@ -249,6 +268,353 @@ def sig_term(sig):
                         for n, has, d in sig])
 
 
+# ---------------------------------------------------------------------------------------------
+# the life of a namespace object: what decides the value of self.namespace
+# ---------------------------------------------------------------------------------------------
+HOOKS = ('__getattr__', '__getattribute__', '__setattr__', '__delattr__', '__slots__', '__dict__',
+         '__init_subclass__', '__new__', '__class__')
+DISPATCH_UNDER = ('_trigger_event', '_get_event_handler', '_get_namespace_handler')
+DISPATCH_HELPER = ('trigger_event',)
+
+
+def mro_classes(mods, fname, cname, depth=0, seen=None):
+    """[(file, ClassDef)] of the class and all its bases (every base must be resolvable)."""
+    if depth > 6:
+        raise Unsupported('inheritance chain too deep at %s' % cname)
+    seen = [] if seen is None else seen
+    cls = mods.find_class(fname, cname)
+    if cls.keywords:
+        raise Unsupported('class %s has class keywords (metaclass?)' % cname)
+    if (fname, cname) not in [(f, c.name) for f, c in seen]:
+        seen.append((fname, cls))
+    imps = mods.imports(fname)
+    for b in cls.bases:
+        if isinstance(b, ast.Name):
+            bf, bc = fname, b.id
+        elif isinstance(b, ast.Attribute) and isinstance(b.value, ast.Name) and b.value.id in imps:
+            bf, bc = imps[b.value.id], b.attr
+        else:
+            raise Unsupported('base class of %s not resolvable: %s' % (cname, ast.unparse(b)))
+        if bc == 'object':
+            continue
+        mro_classes(mods, bf, bc, depth + 1, seen)
+    return seen
+
+
+def is_self_attr(node, attr=None):
+    return isinstance(node, ast.Attribute) and isinstance(node.value, ast.Name) and \
+        node.value.id == 'self' and (attr is None or node.attr == attr)
+
+
+def plain_namespace_attr(mods, hfile, hcls):
+    """Reasons (list of str) why `namespace` is NOT a plain instance attribute of hcls; [] = plain."""
+    why = []
+    for fname, cls in mro_classes(mods, hfile, hcls):
+        for node in cls.body:
+            if isinstance(node, (ast.FunctionDef, ast.AsyncFunctionDef)):
+                if node.name == 'namespace':
+                    why.append('class %s defines `namespace` at class level (%s%s)' % (
+                        cls.name, 'def', ''.join(' @' + ast.unparse(d) for d in node.decorator_list)))
+                if node.name in HOOKS:
+                    why.append('class %s defines %s' % (cls.name, node.name))
+                for n in ast.walk(node):
+                    if isinstance(n, ast.Attribute) and n.attr == 'namespace' and \
+                            isinstance(n.ctx, (ast.Store, ast.Del)) and \
+                            not (node.name == '__init__' and is_self_attr(n)):
+                        why.append('%s.%s stores into `%s`' % (cls.name, node.name, ast.unparse(n)))
+            elif isinstance(node, ast.Expr) and isinstance(node.value, ast.Constant):
+                pass
+            elif isinstance(node, ast.Pass):
+                pass
+            else:
+                names = set()
+                for n in ast.walk(node):
+                    for a in ('id', 'name', 'asname', 'attr', 'arg'):
+                        v = getattr(n, a, None)
+                        if isinstance(v, str):
+                            names.add(v)
+                if isinstance(node, (ast.Assign, ast.AnnAssign, ast.AugAssign)) and \
+                        'namespace' not in names and not names & set(HOOKS):
+                    continue        # a class attribute with another name
+                why.append('class %s: class-level %s may bind `namespace` or an attribute hook: %s' % (
+                    cls.name, type(node).__name__, ast.unparse(node)[:60]))
+    # the whole package: stores into <x>.namespace from outside, reflective attribute writes
+    for f in sorted(os.listdir(src_dir())):
+        if not f.endswith('.py'):
+            continue
+        try:
+            tree = mods.get(f)
+        except SyntaxError as e:
+            why.append('%s does not parse: %s' % (f, e))
+            continue
+        for n in ast.walk(tree):
+            if isinstance(n, ast.Attribute) and n.attr == 'namespace' and \
+                    isinstance(n.ctx, (ast.Store, ast.Del)) and not is_self_attr(n):
+                why.append('%s:%d stores into `%s`' % (f, n.lineno, ast.unparse(n)))
+            elif isinstance(n, ast.Call) and isinstance(n.func, ast.Name) and \
+                    n.func.id in ('setattr', 'delattr', 'vars'):
+                a = n.args[1] if len(n.args) > 1 else None
+                if n.func.id == 'vars' or not (isinstance(a, ast.Constant) and isinstance(a.value, str) and
+                                               a.value != 'namespace' and not a.value.startswith('__')):
+                    why.append('%s:%d reflective attribute write `%s`' % (f, n.lineno, ast.unparse(n)[:60]))
+            elif isinstance(n, ast.Attribute) and n.attr in ('__dict__', '__setattr__', '__delattr__'):
+                why.append('%s:%d uses %s' % (f, n.lineno, n.attr))
+    return why
+
+
+def wexpr_term(value, ns_param):
+    """Gallina wexpr of the right-hand side of an attribute store outside the helpers."""
+    if value is None:
+        return 'WUnsupported'
+    if isinstance(value, ast.Name) and ns_param and value.id == ns_param:
+        return 'WEventNs'
+    try:
+        return 'WConst %s' % coqio.pv(const_value(value))
+    except Unsupported:
+        return 'WUnsupported'
+
+
+def attr_stores(fn):
+    """[(Attribute node with Store/Del context, assigned value or None)] anywhere in fn."""
+    out, done = [], set()
+    for n in ast.walk(fn):
+        if isinstance(n, ast.Assign):
+            for t in n.targets:
+                if isinstance(t, ast.Attribute):
+                    out.append((t, n.value))
+                    done.add(id(t))
+    for n in ast.walk(fn):
+        if isinstance(n, ast.Attribute) and isinstance(n.ctx, (ast.Store, ast.Del)) and id(n) not in done:
+            out.append((n, None))
+    return out
+
+
+def arg_names(fn):
+    a = fn.args
+    return [x.arg for x in a.posonlyargs + a.args + a.kwonlyargs] + \
+        ([a.vararg.arg] if a.vararg else []) + ([a.kwarg.arg] if a.kwarg else [])
+
+
+def rebinds(fn, name):
+    return any(isinstance(n, ast.Name) and n.id == name and isinstance(n.ctx, (ast.Store, ast.Del))
+               for n in ast.walk(fn))
+
+
+def call_whitelisted(call):
+    f = call.func
+    if isinstance(f, ast.Name):
+        return f.id in ('handler', 'hasattr', 'getattr')
+    if isinstance(f, ast.Attribute) and isinstance(f.value, ast.Name):
+        return (f.value.id, f.attr) in (('self', '_get_event_handler'), ('self', '_get_namespace_handler'),
+                                        ('handler', 'trigger_event'), ('asyncio', 'iscoroutinefunction'))
+    if isinstance(f, ast.Call) and isinstance(f.func, ast.Name) and f.func.id == 'getattr':
+        return True
+    return False
+
+
+def scan_writes(fn, where, self_is_object, ns_param, msgs, check_calls):
+    """Attribute stores of fn that may hit the namespace object, as [(attr, wexpr term)]."""
+    out = []
+    if ns_param and (ns_param not in arg_names(fn) or rebinds(fn, ns_param)):
+        ns_param = None
+    for node, value in attr_stores(fn):
+        if is_self_attr(node) and not self_is_object:
+            continue        # the server / client writes one of its own attributes
+        w = wexpr_term(value, ns_param)
+        base_ok = isinstance(node.value, ast.Name)
+        if not base_ok:
+            msgs.append('ERROR fwd2coq: %s: attribute store with a computed target `%s`' % (
+                where, ast.unparse(node)))
+            out.append(('namespace', 'WUnsupported'))
+        out.append((node.attr, w))
+        if w == 'WUnsupported':
+            msgs.append('ERROR fwd2coq: %s: value stored into `%s` is outside the whitelist' % (
+                where, ast.unparse(node)))
+    if check_calls:
+        for n in ast.walk(fn):
+            if isinstance(n, ast.Call) and not call_whitelisted(n):
+                msgs.append('ERROR fwd2coq: %s: call `%s` is outside the dispatch-path whitelist (it could '
+                            'write to the namespace object)' % (where, ast.unparse(n)[:70]))
+                out.append(('namespace', 'WUnsupported'))
+    return out
+
+
+def tr_ctor(mods, fname, cname, msgs, depth=0):
+    """(signature, [(attr, expr term)]) of cname.__init__ with super().__init__ inlined."""
+    owner, fn = mods.find_method(fname, cname, '__init__')
+    ofile = [f for f, c in mro_classes(mods, fname, cname) if c.name == owner][0]
+    where = '%s.__init__' % owner
+    if isinstance(fn, ast.AsyncFunctionDef):
+        raise Unsupported('%s is async' % where)
+    sig = signature_of(fn, where)
+    params = [n for n, _, _ in sig]
+    body = list(fn.body)
+    if body and isinstance(body[0], ast.Expr) and isinstance(body[0].value, ast.Constant) and \
+            isinstance(body[0].value.value, str):
+        body = body[1:]
+    writes = []
+    for st in body:
+        if isinstance(st, ast.Assign) and len(st.targets) == 1 and is_self_attr(st.targets[0]):
+            writes.append((st.targets[0].attr, tr_expr(st.value, params)))
+            continue
+        c = st.value if isinstance(st, ast.Expr) else None
+        if isinstance(c, ast.Call) and isinstance(c.func, ast.Attribute) and c.func.attr == '__init__' and \
+                isinstance(c.func.value, ast.Call) and isinstance(c.func.value.func, ast.Name) and \
+                c.func.value.func.id == 'super' and not c.func.value.args and not c.func.value.keywords:
+            if depth > 4:
+                raise Unsupported('%s: constructor chain too deep' % where)
+            cls = mods.find_class(ofile, owner)
+            if len(cls.bases) != 1:
+                raise Unsupported('%s: super() with %d bases' % (where, len(cls.bases)))
+            b = cls.bases[0]
+            imps = mods.imports(ofile)
+            if isinstance(b, ast.Name):
+                bf, bc = ofile, b.id
+            elif isinstance(b, ast.Attribute) and isinstance(b.value, ast.Name) and b.value.id in imps:
+                bf, bc = imps[b.value.id], b.attr
+            else:
+                raise Unsupported('%s: base not resolvable' % where)
+            psig, pwrites = tr_ctor(mods, bf, bc, msgs, depth + 1)
+            pnames = [n for n, _, _ in psig]
+            given = {}
+            for i, a in enumerate(c.args):
+                if isinstance(a, ast.Starred) or i >= len(pnames):
+                    raise Unsupported('%s: super().__init__ arguments' % where)
+                given[pnames[i]] = a
+            for kw in c.keywords:
+                if kw.arg is None or kw.arg not in pnames or kw.arg in given:
+                    raise Unsupported('%s: super().__init__ arguments' % where)
+                given[kw.arg] = kw.value
+            for pn in pnames:
+                a = given.get(pn)
+                if not (isinstance(a, ast.Name) and a.id == pn and pn in params):
+                    raise Unsupported('%s: super().__init__ must pass every parameter on under its own name '
+                                      '(%s)' % (where, pn))
+            writes.extend(pwrites)
+            continue
+        raise Unsupported('%s: statement outside the whitelist: %s' % (where, ast.unparse(st)[:70]))
+    return sig, writes
+
+
+def tr_class(mods, hcls, hfile, attr, ucls, ufile, msgs):
+    """Gallina term of type Life.nsclass for one helper class, plus a summary for the harness."""
+    where = 'class %s' % hcls
+    plain, ctor_sig, ctor, attach, register, dispatch, key = False, [], [], [], [], [], 'KUnsupported'
+    try:
+        why = plain_namespace_attr(mods, hfile, hcls)
+        for w in why:
+            msgs.append('ERROR fwd2coq: %s: `namespace` is not a plain instance attribute: %s' % (where, w))
+        plain = not why
+    except (Unsupported, LookupError, OSError, SyntaxError) as e:
+        msgs.append('ERROR fwd2coq: %s: %s' % (where, e))
+    try:
+        ctor_sig, ctor = tr_ctor(mods, hfile, hcls, msgs)
+    except (Unsupported, LookupError, OSError, SyntaxError) as e:
+        msgs.append('ERROR fwd2coq: %s constructor: %s' % (where, e))
+        ctor_sig, ctor = [], []
+    # _set_server / _set_client
+    setter = '_set_' + attr
+    try:
+        _o, fn = mods.find_method(hfile, hcls, setter)
+        names = arg_names(fn)
+        if len(names) != 2 or names[0] != 'self' or fn.decorator_list:
+            raise Unsupported('%s.%s: unexpected signature' % (hcls, setter))
+        for node, value in attr_stores(fn):
+            if is_self_attr(node) and isinstance(value, ast.Name) and value.id == names[1]:
+                attach.append((node.attr, 'WOpaque'))       # self.server = server
+                continue
+            w = wexpr_term(value, None)
+            if w == 'WUnsupported' or not is_self_attr(node):
+                msgs.append('ERROR fwd2coq: %s.%s: store `%s` is outside the whitelist' % (
+                    hcls, setter, ast.unparse(node)))
+                attach.append(('namespace', 'WUnsupported'))
+            attach.append((node.attr, w))
+        for n in ast.walk(fn):
+            if isinstance(n, ast.Call):
+                raise Unsupported('%s.%s contains a call' % (hcls, setter))
+    except (Unsupported, LookupError, OSError, SyntaxError) as e:
+        msgs.append('ERROR fwd2coq: %s: %s' % (where, e))
+        attach.append(('namespace', 'WUnsupported'))
+    # register_namespace on the server / client class
+    try:
+        _o, fn = mods.find_method(ufile, ucls, 'register_namespace')
+        names = arg_names(fn)
+        if len(names) != 2 or names[0] != 'self' or fn.decorator_list:
+            raise Unsupported('%s.register_namespace: unexpected signature' % ucls)
+        hp = names[1]
+        if rebinds(fn, hp):
+            raise Unsupported('%s.register_namespace rebinds %s' % (ucls, hp))
+        register = scan_writes(fn, '%s.register_namespace' % ucls, False, None, msgs, False)
+        sets, filed = 0, []
+        for n in ast.walk(fn):
+            if isinstance(n, ast.Call):
+                f = n.func
+                if isinstance(f, ast.Attribute) and isinstance(f.value, ast.Name) and f.value.id == hp and \
+                        f.attr == setter:
+                    sets += 1
+                elif isinstance(f, ast.Name) and f.id == 'isinstance':
+                    pass
+                elif isinstance(f, ast.Name) and f.id == 'ValueError':
+                    pass
+                elif isinstance(f, ast.Attribute) and f.attr == 'is_asyncio_based' and \
+                        isinstance(f.value, ast.Name) and f.value.id in ('self', hp):
+                    pass
+                else:
+                    raise Unsupported('%s.register_namespace: call `%s` outside the whitelist' % (
+                        ucls, ast.unparse(n)[:60]))
+            if isinstance(n, ast.Subscript) and isinstance(n.ctx, (ast.Store, ast.Del)):
+                filed.append(n)
+        if sets != 1:
+            raise Unsupported('%s.register_namespace calls %s.%s %d times' % (ucls, hp, setter, sets))
+        ok_key = False
+        if len(filed) == 1 and is_self_attr(filed[0].value, 'namespace_handlers'):
+            sl = filed[0].slice
+            assigns = [n for n in ast.walk(fn) if isinstance(n, ast.Assign) and filed[0] in n.targets]
+            if isinstance(sl, ast.Attribute) and isinstance(sl.value, ast.Name) and sl.value.id == hp and \
+                    sl.attr == 'namespace' and len(assigns) == 1 and len(assigns[0].targets) == 1 and \
+                    isinstance(assigns[0].value, ast.Name) and assigns[0].value.id == hp:
+                ok_key = True
+        if not ok_key:
+            raise Unsupported('%s.register_namespace does not file the object as '
+                              'self.namespace_handlers[%s.namespace] = %s' % (ucls, hp, hp))
+        key = 'KSelfNamespace'
+    except (Unsupported, LookupError, OSError, SyntaxError) as e:
+        msgs.append('ERROR fwd2coq: %s: %s' % (where, e))
+        key = 'KUnsupported'
+    # the dispatch path
+    for cfile, cname, fnames, self_is_object in ((ufile, ucls, DISPATCH_UNDER, False),
+                                                 (hfile, hcls, DISPATCH_HELPER, True)):
+        for fname_ in fnames:
+            try:
+                _o, fn = mods.find_method(cfile, cname, fname_)
+                if fn.decorator_list:
+                    raise Unsupported('%s.%s is decorated' % (cname, fname_))
+                dispatch.extend(scan_writes(fn, '%s.%s' % (cname, fname_), self_is_object, 'namespace',
+                                            msgs, True))
+            except (Unsupported, LookupError, OSError, SyntaxError) as e:
+                msgs.append('ERROR fwd2coq: %s: dispatch path: %s' % (where, e))
+                dispatch.append(('namespace', 'WUnsupported'))
+
+    def wl(ws):
+        return coqio.clist(['(%s, %s)' % (coqio.cstr(a), w) for a, w in ws])
+    term = ('mkNsClass %s\n    %s\n    %s\n    %s %s %s %s\n    %s' % (
+        coqio.cstr(hcls), sig_term(ctor_sig),
+        coqio.clist(['(%s, %s)' % (coqio.cstr(a), e) for a, e in ctor]),
+        coqio.cbool(plain), wl(attach), wl(register), key, wl(dispatch)))
+    info = {'helper_class': hcls, 'k': 'k_' + hcls, 'pairs': 'pairs_' + hcls, 'ctor_sig': ctor_sig,
+            'plain': plain, 'attach': attach, 'register': register, 'key': key, 'dispatch': dispatch,
+            'ctor': ctor}
+    return term, info
+
+
+def class_descriptions():
+    """What translate() says about the four classes (for the harness)."""
+    mods, msgs, out = Modules(), [], []
+    for hcls, hfile, attr, ucls, ufile, _methods in TABLE:
+        out.append(tr_class(mods, hcls, hfile, attr, ucls, ufile, msgs)[1])
+    return out
+
+
 def translate():
     """-> (text of Gen_forward.v, messages, description for the harness)."""
     mods = Modules()
@@ -290,12 +656,23 @@ def translate():
                          'h': hname, 'u': uname, 'helper_owner': howner, 'under_owner': uowner,
                          'hsig': hsig, 'usig': usig, 'h_async': hasync, 'u_async': uasync,
                          'translated': body != 'Unsupported'})
-    files = sorted(os.path.join('src', 'socketio', f) for f in mods.cache)
+    kdefs = []
+    for hcls, hfile, attr, ucls, ufile, methods in TABLE:
+        term, _info = tr_class(mods, hcls, hfile, attr, ucls, ufile, msgs)
+        kdefs.append('Definition k_%s : nsclass :=\n  %s.' % (hcls, term))
+        kdefs.append('Definition pairs_%s : list (helper * method) :=\n  [ %s ].' % (
+            hcls, '\n  ; '.join('(h_%s_%s, m_%s_%s)' % (hcls, m, ucls, m) for m in methods)))
+    main = set(x for row in TABLE for x in (row[1], row[4])) | {'base_namespace.py', 'base_server.py',
+                                                                'base_client.py'}
+    files = sorted(os.path.join('src', 'socketio', f) for f in mods.cache if f in main)
     text = ('(* GENERATED by harness/translator/fwd2coq.py - do not edit, not under version control.\n'
-            '   Source: %s *)\n'
-            'From VT Require Import Base.PyVal Forward.Forward.\n\n' % ', '.join(files))
+            '   Source: %s (and every module of src/socketio, scanned for stores into `.namespace`) *)\n'
+            'From VT Require Import Base.PyVal Forward.Forward Forward.Life.\n\n' % ', '.join(files))
     text += '\n'.join(defs) + '\n\n'
-    text += 'Definition all_pairs : list (helper * method) :=\n  [ %s ].\n' % '\n  ; '.join(pairs)
+    text += 'Definition all_pairs : list (helper * method) :=\n  [ %s ].\n\n' % '\n  ; '.join(pairs)
+    text += '\n'.join(kdefs) + '\n'
+    text += 'Definition all_classes : list (nsclass * list (helper * method)) :=\n  [ %s ].\n' % '\n  ; '.join(
+        '(k_%s, pairs_%s)' % (row[0], row[0]) for row in TABLE)
     # the digest of the text is part of an identifier, so that a compiled Gen_forward.vo can be
     # matched against the text it was compiled from (see vo_is_fresh)
     text += 'Definition %s : unit := tt.\n' % digest_ident(text)
